@@ -416,6 +416,9 @@ def _check_genes(problems: _Problems, orfs: list, region, model: dict, spec: dic
             if not js_range[0] <= orf["start"] <= orf["end"] <= js_range[1]:
                 problems.add("gene_in_range", {**context, "gene": name, "location": loc,
                                                "orf": {k: orf[k] for k in ("start", "end", "locus_tag")}})
+        intron_over_origin = spans and not any(part[0] == 0 or part[1] == length for part in loc["parts"])
+        if intron_over_origin and mode in ("cross", "whole"):
+            classes.append(f"gene_intron_over_origin_{'shift' if mode == 'cross' else 'split'}")
         if halves:
             classes.append("gene_split")
             one, two = got[0], halves[0]
@@ -788,6 +791,25 @@ def layouts(draw):
         if not circular and gen.is_span(loc):
             continue
         add_gene(loc)
+    # a gene whose INTRON contains the origin: no exon touches base 0 or base L (two or three exons, both strands),
+    # kept close to the origin so that the areas drawn over the origin contain it
+    if circular and 4 <= origin_seen <= width - 4 and draw(st.integers(0, 1)) == 0:
+        gap_before = draw(st.sampled_from([1, 1, 2, 5]))
+        gap_after = draw(st.sampled_from([1, 1, 2, 5]))
+        e_one = max(3, origin_seen - gap_before)                   # end of the last exon before the origin
+        s_two = min(width - 3, origin_seen + gap_after)            # start of the first exon after it
+        s_one = point(max(0, e_one - max(3, cap)), e_one - 3)
+        e_two = point(s_two + 3, min(width, s_two + max(3, cap)))
+        exons = [[s_one, e_one], [s_two, e_two]]
+        if e_one - s_one >= 8 and draw(st.integers(0, 2)) == 0:
+            cut_one = draw(st.integers(s_one + 3, e_one - 4))
+            cut_two = draw(st.integers(cut_one + 1, e_one - 3))
+            exons = [[s_one, cut_one], [cut_two, e_one], [s_two, e_two]]
+        elif e_two - s_two >= 8 and draw(st.integers(0, 2)) == 0:
+            cut_one = draw(st.integers(s_two + 3, e_two - 4))
+            cut_two = draw(st.integers(cut_one + 1, e_two - 3))
+            exons = [[s_one, e_one], [s_two, cut_one], [cut_two, e_two]]
+        add_gene(_genome_exons(origin, length, exons, draw(st.sampled_from([1, -1]))))
     # and genes anywhere on the record
     for gene in draw(gen.gene_layout(length, circular, max_genes=4, min_genes=0 if genes else 1)):
         add_gene(gene["loc"])
@@ -801,6 +823,7 @@ REQUIRED_CLASSES = [f"adjust_{branch}_{how}" for branch in BRANCHES for how in (
     "post_origin_offset", "gene_split", "gene_cross_shift", "gene_post_origin_shift", "region_whole", "region_cross",
     "region_plain", "subregions_only", "subregions_with_candidates", "single_candidate_hidden", "single_candidate_shown",
     "sideloaded_protocluster", "sideloaded_subregion", "twins_split_same_kind", "twins_split_mixed_kinds",
+    "gene_intron_over_origin_shift", "gene_intron_over_origin_split",
 ]
 
 
